@@ -89,3 +89,81 @@ def constructor_sites(cname):
                         visit(ch, il)
                 visit(fn, False)
     return out
+
+
+def class_hierarchy(uni):
+    """the subclass relation the sidecars declare (BASES) is a correct and closed abstraction of the repository's:
+    (a) every declared base of a declared class is an ancestor of that class in the repository (intermediate
+    classes may be skipped); (b) every repository class that descends from a declared class is declared too, unless
+    it is never instantiated anywhere in teaal/ (an abstract intermediate) or the sidecar lists it in
+    HIERARCHY_OUT_OF_SCOPE with a reason (reported as an assumption). Without (b), typing a value as `declared
+    class` would silently leave out the instances of the undeclared subclass. Returns (ok, detail, checked)."""
+    where = {}
+    for rel in extract.all_repo_modules():
+        for cname in extract.module(rel).classes:
+            where.setdefault(cname, []).append(rel)
+
+    def locate(real, hint=None):
+        if hint:
+            return hint
+        c = where.get(real, [])
+        return c[0] if len(c) == 1 else None
+
+    def repo_bases(rel, real):
+        out = []
+        m = extract.module(rel)
+        for b in m.bases(real):
+            # a base defined in the same module wins; else a unique class of that name
+            if b in m.classes:
+                out.append((rel, b))
+            elif locate(b):
+                out.append((locate(b), b))
+        return out
+
+    def ancestors(rel, real, seen=None):
+        seen = seen if seen is not None else set()
+        for rb in repo_bases(rel, real):
+            if rb not in seen:
+                seen.add(rb)
+                ancestors(rb[0], rb[1], seen)
+        return seen
+    bad, checked = [], 0
+    declared = {}      # (rel, real) -> sidecar name
+    for cname in uni.bases:
+        real = uni.class_alias.get(cname, cname)
+        rel = locate(real, uni.modules.get(cname))
+        if rel is None:
+            continue
+        if real not in extract.module(rel).classes:
+            bad.append("%s: class not found in %s" % (cname, rel))
+            continue
+        declared[(rel, real)] = cname
+    for (rel, real), cname in declared.items():
+        anc = {a[1] for a in ancestors(rel, real)}
+        checked += 1
+        for b in uni.bases[cname]:
+            if uni.class_alias.get(b, b) not in anc:
+                bad.append("%s: the sidecar declares base %s, which is not an ancestor in the repository (bases there: %s)"
+                           % (cname, b, extract.module(rel).bases(real)))
+    # (b) closure. Roots listed in a sidecar's CLOSED_HIERARCHIES must have every repository descendant declared
+    # (a failure otherwise); for the other declared classes the undeclared descendants are returned as notes and
+    # reported as an assumption ("values typed as X are instances of the declared subclasses only").
+    closed = set(getattr(uni, "closed_hierarchies", ()))
+    oos = getattr(uni, "hierarchy_out_of_scope", {})
+    notes = {}
+    for rel in extract.all_repo_modules():
+        m = extract.module(rel)
+        for cname in m.classes:
+            if (rel, cname) in declared or cname in oos or (rel + ":" + cname) in oos:
+                continue
+            hit = [declared[a] for a in ancestors(rel, cname) if a in declared]
+            if not hit:
+                continue
+            roots = [h for h in hit if h in closed]
+            if roots:
+                bad.append("%s (%s) descends from %s (declared closed) but is not declared in the sidecar's BASES"
+                           % (cname, rel, roots[0]))
+            else:
+                top = [h for h in hit if not uni.bases.get(h)] or hit
+                notes.setdefault(top[0], []).append(cname)
+    return (not bad, "; ".join(bad[:6]), checked, notes)
